@@ -174,7 +174,7 @@ func histString(h []XEvent) string {
 	return strings.Join(s, " ")
 }
 
-func (c *X2Config) Run(deadline time.Time, auditSlice int) *X2Result {
+func (c *X2Config) Run(deadline Budget, auditSlice int) *X2Result {
 	res := &X2Result{Outcomes: map[string]bool{}, Complete: true}
 	type node struct{ hist []XEvent }
 	seen := map[string][]XEvent{}
@@ -201,7 +201,7 @@ func (c *X2Config) Run(deadline time.Time, auditSlice int) *X2Result {
 	for depth := 0; depth < c.Depth && len(frontier) > 0; depth++ {
 		var next []node
 		for ni, n := range frontier {
-			if time.Now().After(deadline) || (c.MaxStates > 0 && len(seen) > c.MaxStates) {
+			if deadline.Exceeded() || (c.MaxStates > 0 && len(seen) > c.MaxStates) {
 				res.Complete = false
 				res.DepthDone = depth
 				_ = ni
@@ -236,7 +236,7 @@ func (c *X2Config) Run(deadline time.Time, auditSlice int) *X2Result {
 				post := w2.Log[len(w2.Log)-1].Dump
 				vs := c.check(w2, pre, post, ev, preLen, listed)
 				if w2.S.Panic != nil {
-					vs = append(vs, Violation{Property: "C13", Rule: "panic", Norm: "panic", Msg: fmt.Sprintf("%v\n%s", w2.S.Panic, w2.S.PanicStack)})
+					vs = append(vs, panicViolation(w2.S.Panic, w2.S.PanicStack))
 				}
 				key := w2.StateKey(c.Symmetry)
 				if len(vs) > 0 {
@@ -449,7 +449,7 @@ func runX2Unit(u Unit, c *X2Config) UnitResult {
 	if u.Tier == "thorough" {
 		audit = 1
 	}
-	r := c.Run(time.Now().Add(unitDeadline(u.Tier)), audit)
+	r := c.Run(newBudget(unitDeadline(u.Tier)), audit)
 	res.States = r.States
 	res.Transitions = r.Transitions
 	res.Execs = r.Execs
